@@ -106,6 +106,7 @@ func (s *server) CreateSchedule(c context.Context, r *pb.CreateScheduleRequest) 
 
 	util.Assert(res.CreateSchedule != nil, "result must not be nil")
 	return &pb.CreatedScheduleResponse{
+		Noop:     res.CreateSchedule.Status == t_api.StatusOK,
 		Schedule: protoSchedule(res.CreateSchedule.Schedule),
 	}, nil
 }
